@@ -359,7 +359,7 @@ Proof.
   set (q := dec_quo (dec_of_int a) F) in *.
   assert (Hqb : q <= two255 * P18) by (assert (a * P18 <= two255 * P18) by (apply Z.mul_le_mono_nonneg_r; [unfold P18|]; lia); lia).
   rewrite (dec_ok_small q) by (unfold P18 in *; lia). cbn [negb].
-  destruct (negb (c_denom (tk_fee p) =? 1)); [left; reflexivity|right].
+  destruct (negb (tk_registered (c_denom (tk_fee p)))); [left; reflexivity|right].
   eexists. split; [reflexivity|].
   destruct (P18 <? q) eqn:Eq.
   - rewrite dec_truncate_int_nonneg by assumption.
